@@ -77,6 +77,7 @@ class Reporter:
         self.prop = prop
         self.obligations: List[Obligation] = []
         self.notes: List[str] = []
+        self.errors: List[str] = []
         self.analysed: Dict[str, Any] = {}
 
     def check(self, rule: str, desc: str, ok: bool, func: Optional[FuncInfo] = None, node: Optional[ast.AST] = None,
@@ -98,6 +99,15 @@ class Reporter:
 
     def note(self, text: str):
         self.notes.append(text)
+
+    def guard(self, fn, *args, **kw):
+        """Run one rule; an AnalysisError is recorded (and later reported as
+        exit 2 unless a violation was found) instead of aborting the other rules."""
+        try:
+            return fn(*args, **kw)
+        except AnalysisError as e:
+            self.errors.append(str(e))
+            return None
 
     def violated(self) -> List[Obligation]:
         return [o for o in self.obligations if not o.ok]
